@@ -383,12 +383,17 @@ class ClassManager(
             manager.instrument_attribute(key, inst, True)
 
     def subclass_managers(self, recursive):
-        for cls in self.class_.__subclasses__():
+        if recursive:
+            # walk the whole class hierarchy: an intermediate class that has
+            # no manager of its own (``__abstract__``, plain mixin subclass)
+            # must not hide the managed classes below it
+            classes = util.walk_subclasses(self.class_)
+        else:
+            classes = self.class_.__subclasses__()
+        for cls in classes:
             mgr = opt_manager_of_class(cls)
             if mgr is not None and mgr is not self:
                 yield mgr
-                if recursive:
-                    yield from mgr.subclass_managers(True)
 
     def post_configure_attribute(self, key):
         _instrumentation_factory.dispatch.attribute_instrument(
